@@ -191,7 +191,7 @@ def run_many(specs, workers=None, chunk=1):
     workers = workers or min(14, max(1, (os.cpu_count() or 2) - 2))
     if len(specs) <= 2 or workers == 1:
         return [run_one(s) for s in specs]
-    ctx = mp.get_context("spawn")
+    ctx = mp.get_context("fork")   # spawn would re-import the main module in every worker
     with ctx.Pool(workers, initializer=_worker_init, maxtasksperchild=50) as pool:
         return pool.map(run_one, specs, chunksize=chunk)
 
